@@ -143,9 +143,16 @@ def _gen(job):
     return [_probe(c) for c in C.generate(C.sweep_strategy(tier), count, seed * 1000 + shard)]
 
 
+def _cold(cfgs):
+    """Large-n probes with cold memo tables: each in a pristine child of the fork server."""
+    from .. import forkserver
+    cl = forkserver.client()
+    return [cl.call("vlib.props.c17._probe", c) for c in cfgs]
+
+
 def check_witness(data, show=False):
     w = data["witness"]
-    out = _probe(w)
+    out = R.pristine_call("vlib.props.c17._probe", w)      # cold process: independent of what ran before
     if show:
         print("replaying %s: domain=%s outcome=%s" % (C.describe(w), out["dom"], out["outcome"]))
     return [((C.variant(w), pred), w, detail, "config") for pred, detail in out["viol"]]
@@ -163,6 +170,9 @@ def run(prop, args):
     res = R.pmap(_probe, box)
     count = 60 if tier == "quick" else 1500
     res += [x for part in R.pmap(_gen, [(tier, args.seed, k, count) for k in range(16)], chunksize=1) for x in part]
+    large = list(C.large_n_probes(tier))
+    res += [x for part in R.pmap(_cold, R.chunks(large, 16), chunksize=1) for x in part]
+    rep.extra["large_n_cold_probes"] = len(large)
     rep.exhaustive = [{"box": "max_n in -1..%d, unit counts 0..max_n+2 (DISK<=4), all four storages, period in -1..4, both trajectories" % (8 if tier == "quick" else 16),
                        "cases": len(box), "exhaustive": True}]
     outcomes = {}
@@ -188,8 +198,10 @@ def run(prop, args):
                        "Revolve family with max_n=1 and 0 RAM units: statement and class docstring disagree, either behaviour accepted"]
 
     def shrink(b, w):
+        from .. import forkserver
+
         def det(c):
-            o = _probe(c)
+            o = forkserver.client().call("vlib.props.c17._probe", c)     # every candidate in a pristine child
             return next((d for p, d in o["viol"] if p == b[1]), None)
         small = C.shrink(w, lambda c: det(c) is not None, budget=120, is_valid=lambda c: domain(c) == domain(w) and min(
             [v for k, v in c.items() if k in ("ram", "disk", "s", "d", "b") and isinstance(v, int)] or [0]) >= 0 and c["n"] >= -1 and c.get("period", 1) >= -1)
